@@ -90,6 +90,11 @@ def instances(tier, seed):
     add(kind='signal-dynamics', what='both', order=2, N=2, grid=fam.G_UNI, T=('num', Fr(2)), method='DC')
     for rep in range(2 if tier == 'quick' else 6):
         add(kind='chain', N=[2, 3, 4][rep % 3], grid=[fam.G_UNI, fam.G_GEO_LOC][rep % 2], T=[('num', Fr(2)), ('free', Fr(3, 2))][rep % 2], refine=[2, 3][rep % 2])
+    # a bspline PARAMETER (coefficients are NLP parameters, kept symbolic) with der(): value and derivative in physical time on fixed knots, horizon != 1
+    for method in ('MS', 'DC'):
+        add(kind='signal', order=2, method=method, N=2, grid=fam.G_UNI, T=('num', Fr(5, 2)), refine=2, der=True, param=True)
+        add(kind='signal', order=3, method=method, N=3, grid=fam.G_GEO_LOC, T=('free', Fr(3, 2)), refine=None, der=True, param=True)
+        add(kind='signal', order=1, method=method, N=2, M=2, grid=fam.G_UNI, T=('num', Fr(2)), refine=3, der=True, param=True)
     return items
 
 
